@@ -61,9 +61,14 @@ def adjacency(ra, dec, linklength):
     return rows, near
 
 
+def typed(c):
+    """coordinate arrays with the dtypes the case asks for (default float64); whole-degree values for integer dtypes"""
+    dt = c.get('dtype') or {}
+    return np.array(c['ra'], dtype=dt.get('ra', 'd')), np.array(c['dec'], dtype=dt.get('dec', 'd'))
+
+
 def one(c):
-    ra = np.array(c['ra'], dtype='d')
-    dec = np.array(c['dec'], dtype='d')
+    ra, dec = typed(c)
     rows, near = adjacency(ra, dec, float(c['linklength']))
     out = {'adj': [str(r) for r in rows], 'nearest_threshold_rel': near}
     kw = {}
@@ -121,8 +126,7 @@ def fast_adjacency(ra, dec, linklength):
 
 def screen(c):
     """uncertified screening of a sky case: does ingroup equal a brute-force labelling?  -> True = suspicious"""
-    ra = np.array(c['ra'], dtype='d')
-    dec = np.array(c['dec'], dtype='d')
+    ra, dec = typed(c)
     kw = {}
     if c.get('chunksize') is not None:
         kw['chunksize'] = float(c['chunksize'])
